@@ -47,7 +47,27 @@ def materialize(box, files, single):
         return os.path.join(box, name), name
     root = os.path.join(box, "payload")
     write_tree(root, [(rel, b.bytes()) for rel, b in files])
+    for rel, b in files:
+        if getattr(b, "hardlink_of", None):
+            path = os.path.join(root, *rel.split("/"))
+            os.remove(path)
+            os.link(os.path.join(root, *b.hardlink_of.split("/")), path)
     return root, "payload"
+
+
+def links(files):
+    return {rel: b.hardlink_of for rel, b in files if getattr(b, "hardlink_of", None)}
+
+
+def files_of_case(case):
+    """Rebuild the (relpath, Blob) list of a recorded case, hard links included."""
+    out = []
+    for rel, tok in case["files"]:
+        blob = blob_from_token(tok)
+        if rel in (case.get("links") or {}):
+            blob.hardlink_of = case["links"][rel]
+        out.append((rel, blob))
+    return out
 
 
 def variant(rng, root, single):
